@@ -7,6 +7,7 @@ Part M: trees (files, dirs, symbolic links incl. dangling) prepared by the harne
 """
 import itertools
 import os
+import re
 
 from mc import world, procseam, cli
 from mc.ref import tree as T
@@ -124,6 +125,9 @@ def cases(tier):
                 yield ('P', mode, 'full', seq)
     for i in range(len(PTOP)):
         yield ('Ptop', i)
+    for kind in ('name', 'stem', 'suffixes', 'suffix'):
+        for how in ('single', 'selection'):
+            yield ('Names', kind, how)
     nt = len(trees(tier))
     for ti in range(nt):
         for oi in range(len(OPTIONS)):
@@ -138,6 +142,8 @@ def run(case) -> Result:
         return _populate(res, case)
     if case[0] == 'Ptop':
         return _ptop(res, case)
+    if case[0] == 'Names':
+        return _names(res, case)
     return _match(res, case)
 
 
@@ -252,6 +258,48 @@ PTOP = [
     ({'dl': '../outside-dir'}, "dir d += {\n dir dl += {\n  file x\n }\n}", 'error'),
     ({'dl': '../outside-dir'}, "dir d += {\n file dl/x\n}", 'error'),
 ]
+
+
+# file names around the table "File name parts" of `help syntax file-matcher` (every row of it, plus dot-files and names ending in a dot)
+NAMES = ['a.tar.gz', 'f.txt', 'f', 'f.', '.x.y', '.hidden', 'a..b', 'x.y.', 'UP.TXT']
+
+
+def _names(res, case):
+    """name / stem / suffixes / suffix of every NAME: the value of the documented rule matches, every other value of the family does not;
+    as a matcher on the single file and as -selection over the directory."""
+    _, kind, how = case
+    w = world.get()
+    seam = procseam.SEAM
+    w.reset()
+    seam.reset()
+    for n in NAMES:
+        w.write('ah/root/' + n, '')
+    idx = {'name': 0, 'stem': 1, 'suffixes': 2, 'suffix': 3}[kind]
+    val = {n: T.name_parts(n)[idx] for n in NAMES}
+    values = sorted(set(val.values()))
+    asserts = []
+    if how == 'single':
+        for n in NAMES:
+            for v in values:
+                m = "%s ~ '^%s$'" % (kind, re.escape(v))
+                asserts.append('exists -rel-act-home root/%s : %s%s' % (n, '' if val[n] == v else '! ', m))
+            if val[n]:
+                asserts.append("exists -rel-act-home root/%s : %s '%s'" % (n, kind, val[n].replace('[', '[[]')))
+    else:
+        for v in values:
+            want = sorted(n for n in NAMES if val[n] == v)
+            m = "%s ~ '^%s$'" % (kind, re.escape(v))
+            asserts.append('dir-contents -rel-act-home root : -selection %s matches -full {%s\n}' % (m, ''.join('\n  ' + n for n in want)))
+            asserts.append('dir-contents -rel-act-home root : -selection ( ! %s ) num-files == %d' % (m, len(NAMES) - len(want)))
+    text = '[conf]\nact-home = ah\n[act]\n[assert]\n' + '\n'.join(asserts) + '\n'
+    o = cli.run_case(text)
+    res.n += len(asserts)
+    res.nontrivial += 1
+    res.outcomes[('Names', o.ident)] += 1
+    if o.ident != 'PASS' or o.exc:
+        res.violation(case, ['file-name part `%s` (%s): an assertion written from the documented table / rule did not pass: %s / %s' % (
+            kind, how, o.ident, ' / '.join(cli.stderr_lines(o.err)[:8])[:600])], {'file': text[:400] + '...'})
+    return res
 
 
 def _ptop(res, case):
